@@ -364,3 +364,59 @@ Qed.
 
 Lemma dec_repos_enc_nil : dec_repos (enc_repos None) = Ok None.
 Proof. reflexivity. Qed.
+
+(** ---- version 1 encodings are still read, with IndexTimeUnix = 0 *)
+Lemma reads_rd_entries_v1 : forall l all m, Forall wf_entry l ->
+  reads (rd_entries (length l) false all m) (concat (map enc_entry_v1 l)) (m ++ map drop_time l).
+Proof.
+  induction l as [|e l IH]; intros all m H; cbn [length rd_entries map concat].
+  - rewrite app_nil_r. apply reads_ret.
+  - inversion H as [|? ? He Hl]; subst. destruct e as [id [[hs it] brs]].
+    destruct He as (Hid & Hit & Hnb & Hbrs). unfold enc_entry_v1.
+    repeat rewrite <- app_assoc.
+    apply reads_bind with (v := to_int id).
+    { apply reads_uvarint. change (2 ^ 32) with 4294967296 in Hid. change (2 ^ 64) with 18446744073709551616. lia. }
+    match goal with |- reads _ ([?b] ++ _) _ => apply reads_bind with (v := b); [apply reads_byt|] end.
+    eapply reads_eq; [apply reads_bind with (v := 0%Z) (p1 := []); [apply reads_ret|]|reflexivity].
+    apply reads_len_then; [exact Hnb | rewrite app_length; pose proof (concat_len_ge enc_branch brs enc_branch_len); lia |].
+    rewrite Nat2Z.id.
+    apply reads_bind with (v := all ++ brs); [apply reads_rd_branches, Hbrs|].
+    eapply reads_eq; [apply reads_bind with (v := brs) (p1 := [])|reflexivity].
+    + unfold go_slice_from. rewrite app_length.
+      replace ((Z.of_nat (length all + length brs) - Z.of_nat (length brs) <? 0)%Z
+               || (Z.of_nat (length all + length brs) <? Z.of_nat (length all + length brs) - Z.of_nat (length brs))%Z)%bool
+        with false by lia.
+      replace (Z.to_nat (Z.of_nat (length all + length brs) - Z.of_nat (length brs))) with (length all) by lia.
+      rewrite skipn_len_app. apply reads_lift.
+    + rewrite to_u32_id by exact Hid.
+      replace ((if hs then 1 else 0) =? 1) with hs by (destruct hs; reflexivity).
+      eapply reads_val; [apply (IH _ _ Hl) | rewrite <- app_assoc; reflexivity].
+Qed.
+
+Lemma enc_entry_v1_len e : (1 <= length (enc_entry_v1 e))%nat /\ (length (snd (snd e)) <= length (enc_entry_v1 e))%nat.
+Proof.
+  destruct e as [id [[hs it] brs]]. unfold enc_entry_v1. cbn [snd]. cbv beta iota. repeat rewrite app_length. cbn [length].
+  pose proof (put_len id). pose proof (concat_len_ge enc_branch brs enc_branch_len) as H0.
+  split; [lia | eapply Nat.le_trans; [exact H0 | lia]].
+Qed.
+
+Lemma all_branches_le_v1 l : (all_branches l <= length (concat (map enc_entry_v1 l)))%nat.
+Proof.
+  unfold all_branches. induction l as [|e l IH]; cbn [fold_right map concat length]; [lia|].
+  rewrite app_length. pose proof (enc_entry_v1_len e) as [_ H]. apply Nat.add_le_mono; [exact H | exact IH].
+Qed.
+
+Lemma dec_repos_enc_v1 l : wf_repos l -> dec_repos (enc_repos_v1 l) = Ok (Some (map drop_time l)).
+Proof.
+  intros (Hn & Ha & Hl). unfold dec_repos, run, dec_repos_m, enc_repos_v1.
+  unfold bind at 1. unfold m_get at 1. cbn [buf].
+  match goal with |- fst (?m ?s) = _ => change (fst (m s)) with (fst (run m (buf s))) end.
+  cbn [buf]. apply run_reads.
+  match goal with |- reads _ (1 :: ?p) _ => change (1 :: p) with ([1] ++ p) end.
+  apply reads_bind with (v := 1); [apply reads_byt|]. cbn [N.eqb Pos.eqb negb orb].
+  apply reads_count_then; [exact Hn | |].
+  { rewrite app_length. pose proof (concat_len_ge enc_entry_v1 l (fun e => proj1 (enc_entry_v1_len e))). lia. }
+  apply reads_count_then; [exact Ha | apply all_branches_le_v1 |].
+  rewrite Nat2Z.id.
+  eapply reads_eq; [apply reads_bind with (v := map drop_time l); [apply (reads_rd_entries_v1 l [] [] Hl)|apply reads_ret]|apply app_nil_r].
+Qed.
